@@ -1,6 +1,7 @@
 package lower
 
 import (
+	"errors"
 	"fmt"
 	"math"
 	"math/bits"
@@ -1826,6 +1827,9 @@ func (l *Lowerer) lowerConstantBinaryExpr(name string, typ parser.Type, expr *pa
 		})
 		l.moduleConstants[name] = handle
 		return nil
+	}
+	if errors.Is(intErr, errConstIntDivByZero) || errors.Is(intErr, errConstIntModByZero) {
+		return fmt.Errorf("module constant '%s': %w", name, intErr)
 	}
 
 	// Try float evaluation
@@ -4807,6 +4811,13 @@ func (l *Lowerer) evalConstantIntExpr(expr parser.Expr) (ir.ScalarKind, int64, e
 	}
 }
 
+// Integer division / remainder by zero in a constant expression is a
+// shader-creation error; callers must not retry the expression as a float.
+var (
+	errConstIntDivByZero = errors.New("division by zero in constant expression")
+	errConstIntModByZero = errors.New("modulo by zero in constant expression")
+)
+
 // evalConstantBinaryExpr evaluates a binary expression of constants at compile time.
 func (l *Lowerer) evalConstantBinaryExpr(e *parser.BinaryExpr) (ir.ScalarKind, int64, error) {
 	leftKind, leftVal, err := l.evalConstantIntExpr(e.Left)
@@ -4837,12 +4848,12 @@ func (l *Lowerer) evalConstantBinaryExpr(e *parser.BinaryExpr) (ir.ScalarKind, i
 		return resultKind, leftVal * rightVal, nil
 	case parser.TokenSlash:
 		if rightVal == 0 {
-			return 0, 0, fmt.Errorf("division by zero in constant expression")
+			return 0, 0, errConstIntDivByZero
 		}
 		return resultKind, leftVal / rightVal, nil
 	case parser.TokenPercent:
 		if rightVal == 0 {
-			return 0, 0, fmt.Errorf("modulo by zero in constant expression")
+			return 0, 0, errConstIntModByZero
 		}
 		return resultKind, leftVal % rightVal, nil
 	case parser.TokenLessLess:
